@@ -24,7 +24,7 @@ ASSUMPTIONS = ['a vanished client is modelled by closing (FIN) or resetting (RST
 SHRINK = 'greedy'
 SHRINK_RUNS = 6
 TIME_BUDGET = {'quick': 170, 'thorough': 1700}
-REQUIRED = {'quick': {'req:worker': 60, 'req:p_worker': 40, 'req:ctx_create': 40, 'req:ctx_delete': 30, 'req:worker_in_ctx': 30, 'cut:inside': 100, 'ctrl_step': 12, 'healthy_concurrent': 20, 'healthy_in_same_context': 60, 'server_close_on_none': 100},
+REQUIRED = {'quick': {'req:worker': 60, 'req:p_worker': 40, 'req:ctx_create': 40, 'req:ctx_delete': 30, 'req:worker_in_ctx': 30, 'cut:inside': 100, 'ctrl_step': 12, 'healthy_concurrent': 20, 'healthy_in_same_context': 60, 'server_close_on_none': 100, 'fresh_worker_in_same_context': 40},
             'thorough': {'req:worker': 600, 'cut:inside': 1000, 'ctrl_step': 120}}
 REQS = ['worker', 'p_worker', 'ctx_create', 'ctx_delete', 'worker_in_ctx']
 PROBE_GUARD = 25.0
@@ -292,6 +292,29 @@ def run_case(case, ctx):
     site = first['req'] + ':' + ('ctrl_' + first['ctrl'] if 'ctrl' in first else ('cut_inside' if first.get('inside') else ('cut_0' if first['cut'] == 0 else 'cut_end')))
     if len(infos) > 1:
         site += '+more'
+    if in_ctx is not None:
+        # a brand-new client of the same context right after the faulty ones (before anything else talks to the server)
+        deleted0 = any(i['req'] == 'ctx_delete' and i['cut'] == i['len'] and not f['garbage'] for i, f in zip(infos, case['faults']))
+        if not deleted0:
+            from pyworkers.persistent_remote import PersistentRemoteWorker
+            fresh = None
+            try:
+                fresh = bounded(PersistentRemoteWorker, PROBE_GUARD, None, context=4242, host=srv.addr)
+                v = bounded(fresh.call, 20, 6)
+                out.label('fresh_worker_in_same_context')
+                if v != 36:
+                    out.viol('context_not_serving', site + ':same_context', f'new worker in the context after the faulty clients: call(6) -> {v!r}')
+            except Blocked:
+                out.viol('context_not_serving', site + ':same_context', 'creating / calling a new worker in the context after the faulty clients blocked')
+            except BaseException as e:
+                if bounded(srv.is_alive, 10):
+                    out.viol('context_not_serving', site + ':same_context', f'new worker in the context after the faulty clients: {type(e).__name__}: {e}'[:200])
+            finally:
+                if fresh is not None:
+                    try:
+                        bounded(fresh.terminate, 10, 1)
+                    except BaseException:
+                        pass
     alive, ok, detail = probe(ctx)
     if not alive:
         out.viol('server_died', site, detail)
